@@ -191,3 +191,56 @@ Definition law_pair (same : bool) (o1 o2 : outcome) (pyeq hasheq : bool) : list 
          ++ chk 12 (negb pyeq || path_set_eqb (flat_map graph_paths g1) (flat_map graph_paths g2))
      | _, _ => []
      end.
+
+(* ------------------------------------------------------------------ which traits a pattern hooks (end to end) *)
+(* A fixed probe (tools/drivers/c15_driver.py, classes Leaf / Root): every object has the traits 0..7
+     t_true (tag=True) t_false (tag=False) t_zero (tag=0) t_empty (tag="") t_tuple (tag=()) t_none (tag=None)
+     t_absent (no metadata) t_other (other=1)
+   and the root has in addition trait 8 = child, an instance of Leaf.  Manual: "+metadata_name matches any trait on
+   the object that has metadata metadata_name" (a value other than None, _metadata_filter.py docstring); "*" matches
+   any trait; a name matches the trait of that name.  A change of trait i at level v (0 root, 1 child) is reported
+   as 16*v + i. *)
+Definition probe_names : list word :=
+  [[116; 95; 116; 114; 117; 101]; [116; 95; 102; 97; 108; 115; 101]; [116; 95; 122; 101; 114; 111]; [116; 95; 101; 109; 112; 116; 121]; [116; 95; 116; 117; 112; 108; 101]; [116; 95; 110; 111; 110; 101]; [116; 95; 97; 98; 115; 101; 110; 116]; [116; 95; 111; 116; 104; 101; 114]].
+Definition w_child : word := [99; 104; 105; 108; 100].
+Definition w_tag : word := [116; 97; 103].
+Definition w_other : word := [111; 116; 104; 101; 114].
+
+Definition hooks (m : matcher) (level i : Z) : bool :=
+  match m with
+  | MTrait w => if (i =? 8) then (level =? 0) && word_eqb w w_child
+                else word_eqb w (nth (Z.to_nat i) probe_names [])
+  | MAnyTrait => (i <? 8) || (level =? 0)
+  | MMeta w => if word_eqb w w_tag then (i <? 5) else if word_eqb w w_other then (i =? 7) else false
+  | _ => false                      (* items: no trait named items, no container *)
+  end.
+
+Definition idxs : list Z := [0; 1; 2; 3; 4; 5; 6; 7; 8].
+Definition level_hits (ml : matcher * link) (level : Z) : list Z :=
+  if notify_of (snd ml) then map (fun i => 16 * level + i) (filter (hooks (fst ml) level) idxs) else [].
+
+(* paths the probe can decide: one element, or  child <connector> element ; everything else: None *)
+Definition path_hits (p : list (matcher * link)) : option (list Z) :=
+  match p with
+  | [e] => Some (level_hits e 0)
+  | [(MTrait w, l); e] => if word_eqb w w_child
+                          then Some ((if notify_of l then [8] else []) ++ level_hits e 1) else None
+  | _ => None
+  end.
+Fixpoint all_hits (ps : list (list (matcher * link))) : option (list Z) :=
+  match ps with
+  | [] => Some []
+  | p :: r => match path_hits p, all_hits r with Some a, Some b => Some (a ++ b) | _, _ => None end
+  end.
+
+Definition zsubset (a b : list Z) : bool := forallb (fun x => existsb (Z.eqb x) b) a.
+
+(* 16  the handler registered by the text on the probe fired for another set of traits than the documented one *)
+Definition law_hook (s : list chr) (registered : bool) (fired : list Z) : list Z :=
+  match doc_parse s with
+  | Some (_, t) => match all_hits (raw_paths t LEnd) with
+                   | Some want => if registered then chk 16 (zsubset want fired && zsubset fired want) else []
+                   | None => []
+                   end
+  | None => []
+  end.
